@@ -192,10 +192,15 @@ pub fn run(rec: &J) -> Outcome {
     let has = |names: &[&str]| ops.iter().any(|o| names.contains(&o["op"].as_str().unwrap_or("")));
     let nontrivial = has(&["PushPlain", "PushSandbox", "PushGlobal"]) && has(&["SetGlobal", "SetIndex", "Pop"]);
     let base = dec_map(&rec["base"]);
+    // the history is recorded as one scope-frame hook trace (validated against Trace_Frames when the driver asks for it)
+    liquid_core::runtime::verif_trace::discard_if_idle();
+    liquid_core::runtime::verif_trace::begin();
     let rt = RuntimeBuilder::new().set_globals(&base).build();
     let cx = Ctx { ops, tops, fin: &rec["final"] };
     let live: Vec<&dyn Runtime> = vec![&rt];
-    match exec(&live, 0, &cx) {
+    let r = exec(&live, 0, &cx);
+    liquid_core::runtime::verif_trace::end(r.is_ok());
+    match r {
         Ok(_) => Outcome::ok(nontrivial),
         Err(d) => Outcome::fail(nontrivial, d),
     }
